@@ -913,16 +913,14 @@ def make_readuntil(kind):
         return z3.And(expected is VNone, z3.Concat(R.units(p), R.flat(B1)) == offered(c), R.no_occ(p, sep),
                       accounted(c), R.ok(B1),
                       # only at EOF, with reading paused (buffer full, no separator in it), or before a marker
-                      z3.Or(marker_next, gave_up),
-                      # J, except that a marker is waiting at the head: the reader has to come back for it
-                      z3.Or(flow_inv(c), marker_next))
+                      z3.Or(marker_next, gave_up))
 
     def raise_marker(c):
         if 'opaque' not in c.result_v.attrs:
             return z3.BoolVal(False)
         e = c.result_v.attrs['opaque'].z
         return z3.And(z3.Concat(R.mark(e), R.flat(buf(c))) == offered(c), z3.Not(R.soft(e)),
-                      accounted(c), R.ok(buf(c)), flow_inv(c))
+                      accounted(c), R.ok(buf(c)))
 
     def out_lemmas(c):
         goals = []
@@ -958,8 +956,9 @@ def make_readuntil(kind):
                  ('result-ends-with-a-separator-match', lambda c: post_return(c)[1]),
                  ('no-earlier-separator-match-in-result', lambda c: post_return(c)[2]),
                  ('buffer-length-accounting', lambda c: accounted(c)),
-                 ('no-empty-chunk-left', lambda c: R.ok(buf(c))),
-                 ('flow-control-invariant', lambda c: flow_inv(c))],
+                 ('no-empty-chunk-left', lambda c: R.ok(buf(c)))],
+        # J on EVERY outcome: whoever consumed data must have re-evaluated the pause before control leaves
+        always=[('flow-control-invariant', lambda c: flow_inv(c))],
         raises={'IncompleteReadError': raise_incomplete, 'CancelledError': True,
                 'ValueError': lambda c: z3.Length(sep_of(c)) == 0,
                 'Exception': raise_marker})
@@ -1029,7 +1028,11 @@ def data_received_post(c):
     d = kz_of(c.argv('datatype'))
     m0, m1 = c.oldv('_recv_buf'), c.newv('_recv_buf')
     B0 = z3.Select(m0.val, d)
-    return z3.And(m1.val == z3.Store(m0.val, d, z3.Concat(B0, z3.Unit(R.mk_val(c.arg('data'))))), m1.dom == m0.dom)
+    data = c.arg('data')
+    # the data becomes the last chunk of its datatype's list; an empty delivery (no units) may also be dropped
+    return z3.And(m1.dom == m0.dom,
+                  z3.Or(m1.val == z3.Store(m0.val, d, z3.Concat(B0, z3.Unit(R.mk_val(data)))),
+                        z3.And(z3.Length(data) == 0, m1.val == m0.val)))
 
 
 data_received = Spec(
@@ -1044,7 +1047,7 @@ data_received = Spec(
         ('buffer-length-accounting', lambda c: accounted(c)),
         ('no-empty-chunk-left', lambda c: R.ok(buf(c))),
         ('flow-control-invariant', lambda c: flow_inv(c)),
-        ('reader-woken', lambda c: woken(c)),
+        ('reader-woken-when-data-arrived', lambda c: z3.Implies(z3.Length(c.arg('data')) > 0, woken(c))),
     ])
 data_received.abstract_fns = ABSTRACT
 
@@ -1342,3 +1345,37 @@ readline = Spec(
         ('buffer-length-accounting', lambda c: accounted(c)),
         ('no-empty-chunk-left', lambda c: R.ok(buf(c)))],
     raises={'CancelledError': True, 'Exception': lambda c: readuntil_newline.raise_marker(c)})
+
+
+# ================================================================== lemmas about the spec functions / bounded stand-in
+def extra_checks(tier, seed):
+    import json
+    import os
+    import subprocess
+    from pyvc import extract, solve
+    lemmas = []
+    for nm, goal in R.occ_lemmas_valid().items():
+        # the two axioms used for rb_occ follow from its definition (quantifier-free validity)
+        sol = z3.Solver()
+        sol.set('timeout', 20000)
+        sol.add(z3.Not(goal))
+        res = sol.check()
+        backend = 'z3'
+        if res == z3.unknown:
+            v, _why = solve._cvc5(sol.to_smt2())
+            res = {'proved': z3.unsat, 'refuted': z3.sat}.get(v, z3.unknown)
+            backend = 'cvc5'
+        lemmas.append({'name': f'C19.lemma#{nm}(from the definition of occurrence)',
+                       'verdict': 'proved' if res == z3.unsat else ('refuted' if res == z3.sat else 'unknown'),
+                       'reason': str(res), 'backend': backend})
+    name = 'C19.bounded#readuntil(list / compiled pattern)+read+readexactly over all chunkings, bytes and str (native)'
+    maxlen = 6 if tier == 'thorough' else 5
+    script = os.path.join(os.path.dirname(os.path.dirname(os.path.abspath(__file__))), 'specs', 'c19_native.py')
+    try:
+        p = subprocess.run(['/venv/bin/python', script, str(seed), str(maxlen)], capture_output=True, text=True,
+                           env=dict(os.environ, PYTHONPATH=extract.REPO), timeout=300, cwd='/')
+        out = json.loads(p.stdout)
+        bounded = {'name': name, 'inputs': out['cases'], 'violations': out['violations']}
+    except Exception as e:      # harness trouble is never a verdict
+        bounded = {'name': name, 'inputs': 0, 'violations': [], 'error': repr(e)}
+    return {'lemmas': lemmas, 'bounded': [bounded]}
